@@ -23,6 +23,12 @@ def gen_base(rng, tier):
         HX.apply_model(m2, w)
         if rng.random() < 0.3:
             inner.append(("get", rng.choice(sorted(m2)) if m2 else b"", "meth"))
+    if rng.random() < 0.25:
+        # the batch itself creates two byte-identical hashed leaves and removes one of them again (with or without a third key
+        # keeping their branch): the removed / merged leaf served intermediate states only
+        inner = HX.gen_shared_family(rng, third=0.5)
+        if rng.random() < 0.5:
+            prior = []
     after, _ = HX.gen_writes(rng, 3)
     return {"prune": prune, "prior": prior, "inner": inner, "after": after}
 
